@@ -159,6 +159,7 @@ def run_shard(spec, tier, seed):
                     ov = dict(ans)
                     ov[key] = 'yes' if aff else 'no'
                     q = scen.Persona(p.year, p.family, p.key, overrides=ov)
+                    q.nc = p.nc           # (a purpose-built filer decides by itself whether it files an N.C. return)
                     out, tv, t = realwork.traced(q)
                     res.evaluations += 1
                     res.count('directed_flips')
@@ -173,6 +174,7 @@ def run_shard(spec, tier, seed):
                             # what the first call found out is not forgotten by the second
                             more = ['1040_s1'] if '1040_s1' not in p.forms() else ['1040_sb']
                             q3 = scen.Persona(p.year, p.family, p.key, overrides=ov)
+                            q3.nc = p.nc
                             out3, tv3, t3 = realwork.traced(q3, then_request=more)
                             res.evaluations += 1
                             res.count('directed_flips_two_calls')
